@@ -3,7 +3,7 @@ from props import sched_common as sc, sched_oracles as so
 
 PID = 'C11'
 META = {
-    'text': 'Theorems over the farm model (dispatch, _put, rerunid, Hand._reg/_process/connectionLost, notify_all) for every engine, state and history: a task is written only by an active dispatch to a connection on the idle list; the idle list holds exactly connections that registered with the current revision and have not dropped (trace theorem); a tasked worker gets one task and leaves the list; nothing but abort answers while inactive; unplaced tasks stay queued (permutation); message fields (job, target, factory, run 0 for regressions, carried run id or db.next()=stored+1 exactly when none). Tied to pl/farm.py by step-by-step correspondence with fake transports; the oracle is also evaluated on the implementation, including oracle-only histories in which the database refuses a run id during a dispatch (not an event of the model).',
+    'text': 'Theorems over the farm model (dispatch, _put, rerunid, Hand._reg/_process/connectionLost, notify_all) for every engine, state and history: a task is written only by an active dispatch to a connection on the idle list; the idle list holds exactly connections that registered with the current revision and have not dropped (trace theorem); a tasked worker gets one task and leaves the list; nothing but abort answers while inactive; unplaced tasks stay queued (permutation); message fields (job, target, factory, run 0 for regressions, carried run id or db.next()=stored+1 exactly when none). Tied to pl/farm.py by step-by-step correspondence with fake transports; the oracle is also evaluated on the implementation, including histories in which the database refuses a run id during a dispatch (Model/SchedFault.v, tied by correspondence; the invariant theorems speak about fault-free histories).',
     'note': 'Trusted: Coq kernel; Sched.v model + drive_sched.py (fake transports decoded with message.loads, fsm stub, db.next stub). Reading taken: "told to leave" constrains what a worker can be told while inactive; the code does not proactively notify during gitting/archiving. One registration per connection is an input restriction (NoDup hypothesis). Not covered: AWS agency, TLS transport.',
     'technique': 'Coq proof (step + trace theorems) over hand-written executable model + model/implementation correspondence + implementation-side oracle',
 }
